@@ -752,7 +752,19 @@ class Frame:
                 a.body_key = (info.get('resolved') or {}).get('key')
                 return a
             if kk == 'adt':
-                return Agg('adt', t, 0, [])
+                # zero-sized enum value: the (unique) inhabited variant
+                vi = 0
+                vs = info.get('variants') or []
+                if len(vs) > 1:
+                    for i, v in enumerate(vs):
+                        ftys = [self.ex.ty(self.crate, f['ty']) for f in v['fields']]
+                        if not any(ft and ('Infallible' in ft['display'] or ft['info'].get('k') == 'never') for ft in ftys):
+                            vi = i; break
+                fields = []
+                for f in (vs[vi]['fields'] if vs else []):
+                    ft = self.ex.ty(self.crate, f['ty'])
+                    fields.append(Agg('adt', ft, 0, []) if ft and ft['info'].get('k') == 'adt' else UNIT)
+                return Agg('adt', t, vi, fields)
             if kk == 'tuple':
                 return UNIT
             return Opaque(('zst', t['display'] if t else '?'))
